@@ -3,7 +3,11 @@ decorated classes, an undecorated subclass of a dataclass node with an extra ini
 an undecorated subclass without extras, and a pure legacy Expression subclass."""
 from __future__ import annotations
 
-from pymbolic.primitives import Expression, Variable, expr_dataclass
+import dataclasses
+import math
+
+from pymbolic.compiler import CompiledExpression
+from pymbolic.primitives import Call, Expression, Variable, expr_dataclass
 
 
 @expr_dataclass()
@@ -30,6 +34,35 @@ class UHashless(Variable):
 
     def __hash__(self):
         return hash(("UHashless", self.name, self.tag))
+
+
+@expr_dataclass()
+class UDerived(Expression):
+    """a field that is not a constructor argument: filled in by __post_init__"""
+    child: object
+    label: str = dataclasses.field(init=False)
+
+    def __post_init__(self):
+        object.__setattr__(self, "label", "lbl" + str(type(self.child).__name__))
+
+
+class SubVariable(Variable):
+    """undecorated subclass that does not even set its own mapper_method: it shares
+    'map_variable' with its parent"""
+
+
+class SubCall(Call):
+    """undecorated subclass of a composite node that shares its parent's mapper_method"""
+
+
+class CompiledWithContext(CompiledExpression):
+    """a user subclass of CompiledExpression that supplies extra names to the compiled code"""
+
+    def context(self):
+        d = dict(super().context())
+        d["sin"] = math.sin
+        d["cos"] = math.cos
+        return d
 
 
 class LegacyVar(Variable):
@@ -66,8 +99,10 @@ class PureLegacy(Expression):
 
 
 USER_CLASSES = {"UTag": UTag, "UTag3": UTag3, "UNamed": UNamed, "UHashless": UHashless,
+                "UDerived": UDerived, "SubVariable": SubVariable, "SubCall": SubCall,
                 "LegacyVar": LegacyVar,
                 "LegacyVarX": LegacyVarX, "PureLegacy": PureLegacy}
 USER_FIELDS = {"UTag": ["e", "s"], "UTag3": ["e", "s", "any"], "UNamed": ["s", "ci"],
-               "UHashless": ["s", "any"],
+               "UHashless": ["s", "any"], "UDerived": ["e"], "SubVariable": ["s"],
+               "SubCall": ["e", "E0"],
                "LegacyVar": ["s"], "LegacyVarX": ["s", "any"], "PureLegacy": ["any", "any"]}
